@@ -68,7 +68,7 @@ func (d *bareDrv) addInner(b byte, plen uint32, pfx [10]byte) {
 	cid := d.nextCid
 	d.present[b] = cid
 	d.emit(fmt.Sprintf("bn addi %d %d %d %d %s", d.id, b, cid, plen, hex.EncodeToString(pfx[:])),
-		func() string { d.n.AddInner(b, cid, plen, pfx); return d.n.Raw() })
+		func() string { d.n.AddInnerWithLeaf(b, cid, plen, pfx); return d.n.Raw() })
 }
 
 func (d *bareDrv) rm(b byte) {
@@ -126,6 +126,16 @@ func (d *bareDrv) probe(all bool) {
 				parts[i] = strconv.Itoa(int(x))
 			}
 			return strings.Join(parts, ",")
+		})
+	}
+	// the real minimum()/maximum() walks, started at this node
+	for _, op := range []string{"min", "max"} {
+		op := op
+		d.emit(fmt.Sprintf("bn %s %d", op, d.id), func() string {
+			if id, ok := d.n.Extreme(op == "max"); ok {
+				return strconv.Itoa(int(id))
+			}
+			return "-"
 		})
 	}
 	d.tr.emit(fmt.Sprintf("bn inv %d", d.id), "ok")
@@ -673,7 +683,7 @@ func replayNodeLine(f []string, tr *transcript) {
 	case "addi":
 		b, cid := byte(atoiOr(f[3])), uint32(atoiOr(f[4]))
 		d.present[b] = cid
-		d.emit(strings.Join(f, " "), func() string { d.n.AddInner(b, cid, uint32(atoiOr(f[5])), parsePfx(f[6])); return d.n.Raw() })
+		d.emit(strings.Join(f, " "), func() string { d.n.AddInnerWithLeaf(b, cid, uint32(atoiOr(f[5])), parsePfx(f[6])); return d.n.Raw() })
 	case "rm":
 		b := byte(atoiOr(f[3]))
 		delete(d.present, b)
@@ -700,6 +710,13 @@ func replayNodeLine(f []string, tr *transcript) {
 				parts[i] = strconv.Itoa(int(x))
 			}
 			return strings.Join(parts, ",")
+		})
+	case "min", "max":
+		d.emit(strings.Join(f, " "), func() string {
+			if id, ok := d.n.Extreme(f[1] == "max"); ok {
+				return strconv.Itoa(int(id))
+			}
+			return "-"
 		})
 	case "inv":
 		tr.emit(strings.Join(f, " "), "ok")
